@@ -1352,7 +1352,12 @@ func c01Tags(c c01Case, o c01Obs, groupSize int) []string {
 		method = "GET"
 	}
 
-	t := []string{"method:" + method, fmt.Sprintf("requests-per-rule-instance:%d", groupSize), "lookup:" + c.Lookup, "decision:" + c01Class(o.Decision, false), "proxy:" + c01Class(o.Proxy, true),
+	stream := "stream:pipeline"
+	if os.Getenv("VERIF_C01_CONCURRENT") != "" {
+		stream = "stream:concurrent"
+	}
+
+	t := []string{stream, "method:" + method, fmt.Sprintf("requests-per-rule-instance:%d", groupSize), "lookup:" + c.Lookup, "decision:" + c01Class(o.Decision, false), "proxy:" + c01Class(o.Proxy, true),
 		"envoy:" + c01Class(o.Envoy, false)}
 
 	if c.Socket {
